@@ -157,26 +157,8 @@ impl Oracle {
 			return Ok(());
 		}
 		let msg = format!("stream {op} yielded {:?} which is not a prefix of what was sent for it {:?}", s.yielded, s.sent);
-		// matcher for the known finding: every yielded item is one of the sent items in order
-		// (a subsequence: something was skipped, nothing foreign), the skipped region begins where the
-		// oracle's own buffer simulation saw the buffer full, and the send task was blocked (gate shut)
-		let mut j = 0;
-		let mut subseq = true;
-		for y in &s.yielded {
-			while j < s.sent.len() && canon(&s.sent[j]) != canon(y) {
-				j += 1;
-			}
-			if j == s.sent.len() {
-				subseq = false;
-				break;
-			}
-			j += 1;
-		}
-		if subseq && s.lag_seen && s.accepted_after_lag && s.gate_was_shut && s.sid.is_some() {
-			Err(format!("KF lag-gap {msg}"))
-		} else {
-			Err(msg)
-		}
+		// pre-fix (F-14, fixed in /repo f2384ab) a stream could resume behind a lag gap: yields 1,3 of 1,2,3
+		Err(msg)
 	}
 }
 
